@@ -763,3 +763,30 @@ Proof.
   induction H as [|n r Hn _ IH]; intros E; cbn [fold_left]; [reflexivity|].
   unfold lower_step at 2. rewrite Hn, String.eqb_refl. apply IH.
 Qed.
+
+(* ------------------------------------------------------------------ declared spellings, small scope
+   (bounded: the bound is part of the statement).  Every table of at most three environments whose
+   names are spellings from [spellings] and do not collide after lower-casing: each environment is
+   found afterwards under the lower-case form of its declared name, with its own contents. *)
+Definition spellings : list string := ["foo"; "Foo"; "FOO"; "fOo"; "bar"; "BAR"; "environment"; "Environment"].
+Definition mk_tab (names : list string) : envtab := List.map (fun n => (n, [(n, RNull)])) names.
+Fixpoint nodupb (l : list string) : bool :=
+  match l with [] => true | x :: r => negb (existsb (String.eqb x) r) && nodupb r end.
+Definition distinct_lower (names : list string) : bool := nodupb (List.map lower names).
+Definition found_lower (names : list string) : bool :=
+  forallb (fun n => match lookup (lower n) (lower_names (mk_tab names)) with
+                    | Some [(k, RNull)] => String.eqb k n
+                    | _ => false end) names
+  && forallb (fun ne => String.eqb (fst ne) (lower (fst ne))) (lower_names (mk_tab names))
+  && Nat.eqb (length (lower_names (mk_tab names))) (length names).
+Definition lists_upto3 (A : list string) : list (list string) :=
+  [[]] ++ List.map (fun a => [a]) A ++ flat_map (fun a => List.map (fun b => [a; b]) A) A
+  ++ flat_map (fun a => flat_map (fun b => List.map (fun c => [a; b; c]) A) A) A.
+
+Lemma declared_spelling_small :
+  forall names, In names (lists_upto3 spellings) -> distinct_lower names = true -> found_lower names = true.
+Proof.
+  assert (H : forallb (fun names => implb (distinct_lower names) (found_lower names)) (lists_upto3 spellings) = true)
+    by (vm_compute; reflexivity).
+  intros names Hin Hd. rewrite forallb_forall in H. specialize (H names Hin). rewrite Hd in H. exact H.
+Qed.
